@@ -121,7 +121,8 @@ func runC01Proc(c C01ProcCase, _ bool) *fOutcome {
 	defer os.RemoveAll(dir)
 	ports := freePorts(4)
 	if len(ports) < 4 {
-		out.Failure = ffail("HARNESS", "ports", 0, "no free ports")
+		out.Skipped = "no free ports"
+		out.Labels["inconclusive-environment"] = true
 		return out
 	}
 	pIn, pPull, pAdmin, pDead := ports[0], ports[1], ports[2], ports[3]
